@@ -450,6 +450,13 @@ def gen_op(rng, w):
         return ["Donate", log_amount(rng, 10 ** 9)]
     # unbond attempts
     ubs = [(n, u, v) for (n, u), v in w.last["ubheld"].items() if v > 0]
+    if ubs and sh["minub"] > 0 and not w.__dict__.get("minub_zeroed") and rng.random() < 0.05:
+        # the admin sets the unbond period to 0 while unbond tokens are outstanding: a token keeps ITS unlock epoch
+        n, u, v = rng.choice(ubs)
+        if u != PROXY:
+            w.minub_zeroed = True
+            _pend.append(["Unbond", u, n, v])
+            return ["SetMinUnbond", OWNER, 0]
     if ubs and roll < 0.34:
         n, u, v = rng.choice(ubs)
         return ["Unbond", u, n, v if rng.random() < 0.6 else rng.randint(1, v)]
